@@ -104,6 +104,8 @@ impl ConnectionState {
         ensures final(self).objects@ == old(self).objects@.insert(cookie),
             final(self).events == old(self).events, final(self).same_but_objects(old(self)),
             final(self).rest_eq(old(self), 2),
+            forall|o: ServiceCookie| #![trigger final(self).ev(o)] #![trigger old(self).ev(o)] final(self).ev(o) == old(self).ev(o),
+            old(self).inv() ==> final(self).inv(),
     //@end
 
     //@fn broker/src/broker/conn_state.rs ConnectionState::remove_object
@@ -111,6 +113,8 @@ impl ConnectionState {
         ensures final(self).objects@ == old(self).objects@.remove(cookie),
             final(self).events == old(self).events, final(self).same_but_objects(old(self)),
             final(self).rest_eq(old(self), 2),
+            forall|o: ServiceCookie| #![trigger final(self).ev(o)] #![trigger old(self).ev(o)] final(self).ev(o) == old(self).ev(o),
+            old(self).inv() ==> final(self).inv(),
     //@end
 
     //@fn broker/src/broker/conn_state.rs ConnectionState::subscribe_event
@@ -141,6 +145,8 @@ impl ConnectionState {
             final(self).senders == old(self).senders, final(self).receivers == old(self).receivers,
             final(self).bus_listeners == old(self).bus_listeners, final(self).calls == old(self).calls,
             final(self).rest_eq(old(self), 4),
+            forall|o: ServiceCookie| #![trigger final(self).ev(o)] #![trigger old(self).ev(o)] final(self).ev(o) == old(self).ev(o),
+            old(self).inv() ==> final(self).inv(),
     //@end
 
     //@fn broker/src/broker/conn_state.rs ConnectionState::unsubscribe_all_events
@@ -151,6 +157,8 @@ impl ConnectionState {
             final(self).senders == old(self).senders, final(self).receivers == old(self).receivers,
             final(self).bus_listeners == old(self).bus_listeners, final(self).calls == old(self).calls,
             final(self).rest_eq(old(self), 4),
+            forall|o: ServiceCookie| #![trigger final(self).ev(o)] #![trigger old(self).ev(o)] final(self).ev(o) == old(self).ev(o),
+            old(self).inv() ==> final(self).inv(),
     //@end
 
     //@fn broker/src/broker/conn_state.rs ConnectionState::subscribe
@@ -161,6 +169,8 @@ impl ConnectionState {
             final(self).senders == old(self).senders, final(self).receivers == old(self).receivers,
             final(self).bus_listeners == old(self).bus_listeners, final(self).calls == old(self).calls,
             final(self).rest_eq(old(self), 5),
+            forall|o: ServiceCookie| #![trigger final(self).ev(o)] #![trigger old(self).ev(o)] final(self).ev(o) == old(self).ev(o),
+            old(self).inv() ==> final(self).inv(),
     //@end
 
     //@fn broker/src/broker/conn_state.rs ConnectionState::unsubscribe
@@ -171,6 +181,8 @@ impl ConnectionState {
             final(self).senders == old(self).senders, final(self).receivers == old(self).receivers,
             final(self).bus_listeners == old(self).bus_listeners, final(self).calls == old(self).calls,
             final(self).rest_eq(old(self), 5),
+            forall|o: ServiceCookie| #![trigger final(self).ev(o)] #![trigger old(self).ev(o)] final(self).ev(o) == old(self).ev(o),
+            old(self).inv() ==> final(self).inv(),
     //@end
 
     //@fn broker/src/broker/conn_state.rs ConnectionState::unsubscribe_all
@@ -195,6 +207,8 @@ impl ConnectionState {
             final(self).events == old(self).events, final(self).calls == old(self).calls,
             final(self).bus_listeners == old(self).bus_listeners,
             final(self).rest_eq(old(self), 6),
+            forall|o: ServiceCookie| #![trigger final(self).ev(o)] #![trigger old(self).ev(o)] final(self).ev(o) == old(self).ev(o),
+            old(self).inv() ==> final(self).inv(),
     //@end
 
     //@fn broker/src/broker/conn_state.rs ConnectionState::remove_sender
@@ -204,6 +218,8 @@ impl ConnectionState {
             final(self).events == old(self).events, final(self).calls == old(self).calls,
             final(self).bus_listeners == old(self).bus_listeners,
             final(self).rest_eq(old(self), 6),
+            forall|o: ServiceCookie| #![trigger final(self).ev(o)] #![trigger old(self).ev(o)] final(self).ev(o) == old(self).ev(o),
+            old(self).inv() ==> final(self).inv(),
     //@end
 
     //@fn broker/src/broker/conn_state.rs ConnectionState::add_receiver
@@ -213,6 +229,8 @@ impl ConnectionState {
             final(self).events == old(self).events, final(self).calls == old(self).calls,
             final(self).bus_listeners == old(self).bus_listeners,
             final(self).rest_eq(old(self), 7),
+            forall|o: ServiceCookie| #![trigger final(self).ev(o)] #![trigger old(self).ev(o)] final(self).ev(o) == old(self).ev(o),
+            old(self).inv() ==> final(self).inv(),
     //@end
 
     //@fn broker/src/broker/conn_state.rs ConnectionState::remove_receiver
@@ -222,6 +240,8 @@ impl ConnectionState {
             final(self).events == old(self).events, final(self).calls == old(self).calls,
             final(self).bus_listeners == old(self).bus_listeners,
             final(self).rest_eq(old(self), 7),
+            forall|o: ServiceCookie| #![trigger final(self).ev(o)] #![trigger old(self).ev(o)] final(self).ev(o) == old(self).ev(o),
+            old(self).inv() ==> final(self).inv(),
     //@end
 
     //@fn broker/src/broker/conn_state.rs ConnectionState::add_bus_listener
@@ -231,6 +251,8 @@ impl ConnectionState {
             final(self).objects == old(self).objects, final(self).events == old(self).events,
             final(self).calls == old(self).calls,
             final(self).rest_eq(old(self), 8),
+            forall|o: ServiceCookie| #![trigger final(self).ev(o)] #![trigger old(self).ev(o)] final(self).ev(o) == old(self).ev(o),
+            old(self).inv() ==> final(self).inv(),
     //@end
 
     //@fn broker/src/broker/conn_state.rs ConnectionState::remove_bus_listener
@@ -240,6 +262,8 @@ impl ConnectionState {
             final(self).objects == old(self).objects, final(self).events == old(self).events,
             final(self).calls == old(self).calls,
             final(self).rest_eq(old(self), 8),
+            forall|o: ServiceCookie| #![trigger final(self).ev(o)] #![trigger old(self).ev(o)] final(self).ev(o) == old(self).ev(o),
+            old(self).inv() ==> final(self).inv(),
     //@end
 
     // C02 leaf fact: a caller serial that is already pending is rejected and nothing changes
@@ -252,6 +276,8 @@ impl ConnectionState {
             final(self).senders == old(self).senders, final(self).receivers == old(self).receivers,
             final(self).bus_listeners == old(self).bus_listeners,
             final(self).rest_eq(old(self), 9),
+            forall|o: ServiceCookie| #![trigger final(self).ev(o)] #![trigger old(self).ev(o)] final(self).ev(o) == old(self).ev(o),
+            old(self).inv() ==> final(self).inv(),
     //@end
 
     //@fn broker/src/broker/conn_state.rs ConnectionState::remove_call
@@ -262,6 +288,8 @@ impl ConnectionState {
             final(self).senders == old(self).senders, final(self).receivers == old(self).receivers,
             final(self).bus_listeners == old(self).bus_listeners,
             final(self).rest_eq(old(self), 9),
+            forall|o: ServiceCookie| #![trigger final(self).ev(o)] #![trigger old(self).ev(o)] final(self).ev(o) == old(self).ev(o),
+            old(self).inv() ==> final(self).inv(),
     //@end
 }
 
